@@ -53,6 +53,8 @@ StringDictionaryRPFC::StringDictionaryRPFC(IteratorDictString *it,
     this->bucketsize = 2;
   } else
     this->bucketsize = bucketsize;
+  // (the construction below must also use the corrected value)
+  bucketsize = this->bucketsize;
 
   // 1) Bulding the Front-Coding representation
   StringDictionaryPFC *dict = new StringDictionaryPFC(it, this->bucketsize);
